@@ -673,6 +673,106 @@ func malformedFor(ctor string, t *rapid.T) []byte {
 	return nil
 }
 
+// controlExchange is the well-behaved conversation between the socket under test and its control
+// peer: one message (and, on the request/reply patterns, its answer) must arrive exactly.
+type controlExchange struct {
+	p    fixture.Proto
+	S, P mangos.Socket
+	seq  int
+	fail func(k, f string, a ...interface{})
+}
+
+func (x *controlExchange) run(stage string) bool {
+	p, S, P, fail := x.p, x.S, x.P, x.fail
+	x.seq++
+	tag := []byte(fmt.Sprintf("control-%d", x.seq))
+	for _, s := range []mangos.Socket{S, P} {
+		_ = s.SetOption(mangos.OptionRecvDeadline, 3*time.Second)
+		_ = s.SetOption(mangos.OptionSendDeadline, 3*time.Second)
+	}
+	mkmsg := func(name string, body []byte) *mangos.Message {
+		m := mangos.NewMessage(len(body))
+		m.Body = append(m.Body, body...)
+		switch name {
+		case "xreq", "xsurveyor":
+			m.Header = append(m.Header, 0x80, 0, 0, byte(x.seq))
+		case "xpair1", "xstar":
+			m.Header = append(m.Header, 0, 0, 0, 0)
+		}
+		return m
+	}
+	recvExact := func(s mangos.Socket, who string, want []byte) (*mangos.Message, bool) {
+		m, err := s.RecvMsg()
+		if err != nil {
+			fail("control-broken", "%s: %s did not receive the control message: %v", stage, who, err)
+			return nil, false
+		}
+		if !bytes.Equal(m.Body, want) {
+			fail("polluted", "%s: %s received %x instead of the control message %q: a hostile peer's bytes reached the application", stage, who, m.Body, want)
+			return nil, false
+		}
+		return m, true
+	}
+	// direction peer -> S when S can receive a first message, else S -> peer
+	switch {
+	case p.Name == "req" || p.Name == "xreq" || p.Name == "surveyor" || p.Name == "xsurveyor":
+		// S asks, P answers
+		if err := S.SendMsg(mkmsg(p.Name, tag)); err != nil {
+			fail("control-broken", "%s: Send: %v", stage, err)
+			return false
+		}
+		m, ok := recvExact(P, "control peer", tag)
+		if !ok {
+			return false
+		}
+		r := mkmsg("", []byte("re:"+string(tag)))
+		r.Header = append(r.Header, m.Header...)
+		m.Free()
+		if err := P.SendMsg(r); err != nil {
+			fail("control-broken", "%s: peer reply: %v", stage, err)
+			return false
+		}
+		if m, ok = recvExact(S, "socket under test", []byte("re:"+string(tag))); !ok {
+			return false
+		}
+		m.Free()
+	case p.CanRecv:
+		if err := P.SendMsg(mkmsg(p.PeerName, tag)); err != nil {
+			fail("control-broken", "%s: control peer Send: %v", stage, err)
+			return false
+		}
+		m, ok := recvExact(S, "socket under test", tag)
+		if !ok {
+			return false
+		}
+		if p.Name == "rep" || p.Name == "xrep" || p.Name == "respondent" || p.Name == "xrespondent" {
+			r := mkmsg("", []byte("re:"+string(tag)))
+			r.Header = append(r.Header, m.Header...)
+			if err := S.SendMsg(r); err != nil {
+				fail("control-broken", "%s: reply: %v", stage, err)
+				return false
+			}
+			m2, ok := recvExact(P, "control peer", []byte("re:"+string(tag)))
+			if !ok {
+				return false
+			}
+			m2.Free()
+		}
+		m.Free()
+	default: // pub, push: S sends
+		if err := S.SendMsg(mkmsg(p.Name, tag)); err != nil {
+			fail("control-broken", "%s: Send: %v", stage, err)
+			return false
+		}
+		m, ok := recvExact(P, "control peer", tag)
+		if !ok {
+			return false
+		}
+		m.Free()
+	}
+	return true
+}
+
 func TestC16HostilePeers(t *testing.T) {
 	stats.ScaledChecks(3, 5, func() {
 		rapid.Check(t, func(t *rapid.T) {
@@ -778,96 +878,8 @@ func TestC16HostilePeers(t *testing.T) {
 				fail("control-connect-delayed", "control peer not attached %v after dialing (silent peers present)", time.Since(t0))
 				return
 			}
-			seq := 0
-			exchange := func(stage string) bool {
-				seq++
-				tag := []byte(fmt.Sprintf("control-%d", seq))
-				for _, s := range []mangos.Socket{S, P} {
-					_ = s.SetOption(mangos.OptionRecvDeadline, 3*time.Second)
-					_ = s.SetOption(mangos.OptionSendDeadline, 3*time.Second)
-				}
-				mkmsg := func(name string, body []byte) *mangos.Message {
-					m := mangos.NewMessage(len(body))
-					m.Body = append(m.Body, body...)
-					switch name {
-					case "xreq", "xsurveyor":
-						m.Header = append(m.Header, 0x80, 0, 0, byte(seq))
-					case "xpair1", "xstar":
-						m.Header = append(m.Header, 0, 0, 0, 0)
-					}
-					return m
-				}
-				recvExact := func(s mangos.Socket, who string, want []byte) (*mangos.Message, bool) {
-					m, err := s.RecvMsg()
-					if err != nil {
-						fail("control-broken", "%s: %s did not receive the control message: %v", stage, who, err)
-						return nil, false
-					}
-					if !bytes.Equal(m.Body, want) {
-						fail("polluted", "%s: %s received %x instead of the control message %q: a hostile peer's bytes reached the application", stage, who, m.Body, want)
-						return nil, false
-					}
-					return m, true
-				}
-				// direction peer -> S when S can receive a first message, else S -> peer
-				switch {
-				case p.Name == "req" || p.Name == "xreq" || p.Name == "surveyor" || p.Name == "xsurveyor":
-					// S asks, P answers
-					if err := S.SendMsg(mkmsg(p.Name, tag)); err != nil {
-						fail("control-broken", "%s: Send: %v", stage, err)
-						return false
-					}
-					m, ok := recvExact(P, "control peer", tag)
-					if !ok {
-						return false
-					}
-					r := mkmsg("", []byte("re:"+string(tag)))
-					r.Header = append(r.Header, m.Header...)
-					m.Free()
-					if err := P.SendMsg(r); err != nil {
-						fail("control-broken", "%s: peer reply: %v", stage, err)
-						return false
-					}
-					if m, ok = recvExact(S, "socket under test", []byte("re:"+string(tag))); !ok {
-						return false
-					}
-					m.Free()
-				case p.CanRecv:
-					if err := P.SendMsg(mkmsg(p.PeerName, tag)); err != nil {
-						fail("control-broken", "%s: control peer Send: %v", stage, err)
-						return false
-					}
-					m, ok := recvExact(S, "socket under test", tag)
-					if !ok {
-						return false
-					}
-					if p.Name == "rep" || p.Name == "xrep" || p.Name == "respondent" || p.Name == "xrespondent" {
-						r := mkmsg("", []byte("re:"+string(tag)))
-						r.Header = append(r.Header, m.Header...)
-						if err := S.SendMsg(r); err != nil {
-							fail("control-broken", "%s: reply: %v", stage, err)
-							return false
-						}
-						m2, ok := recvExact(P, "control peer", []byte("re:"+string(tag)))
-						if !ok {
-							return false
-						}
-						m2.Free()
-					}
-					m.Free()
-				default: // pub, push: S sends
-					if err := S.SendMsg(mkmsg(p.Name, tag)); err != nil {
-						fail("control-broken", "%s: Send: %v", stage, err)
-						return false
-					}
-					m, ok := recvExact(P, "control peer", tag)
-					if !ok {
-						return false
-					}
-					m.Free()
-				}
-				return true
-			}
+			cx := &controlExchange{p: p, S: S, P: P, fail: fail}
+			exchange := cx.run
 			if !exchange("before the attack") {
 				return
 			}
